@@ -3,6 +3,8 @@
 package writer
 
 import (
+	"time"
+
 	"github.com/bits-and-blooms/bloom/v3"
 	dtu "github.com/siglens/siglens/pkg/common/dtypeutils"
 	"github.com/siglens/siglens/pkg/segment/structs"
@@ -203,4 +205,27 @@ func VerifC03UnrotatedRanges(col string) []VerifC03BlockRange {
 		}
 	}
 	return out
+}
+
+// VerifC03DrainPqsChan: what listenBackFillAndEmptyPQSRequests does on its 10 s tick, now: collects the requests
+// queued on pqsChan (waiting up to waitMs for the senders, which are started with `go` at rotation) and hands
+// them to processBackFillAndEmptyPQSRequests.  Returns the number of requests processed.  Meant for a node on
+// which the listener goroutine is not running (first start on an empty data directory).
+func VerifC03DrainPqsChan(waitMs int) int {
+	var buf []PQSChanMeta
+	deadline := time.Now().Add(time.Duration(waitMs) * time.Millisecond)
+	for {
+		select {
+		case m := <-pqsChan:
+			buf = append(buf, m)
+			continue
+		default:
+		}
+		if time.Now().After(deadline) {
+			break
+		}
+		time.Sleep(5 * time.Millisecond)
+	}
+	processBackFillAndEmptyPQSRequests(buf)
+	return len(buf)
 }
